@@ -24,33 +24,38 @@ const ASSUME_H: &str = "H: satisfies() inspects the candidate only through compa
 const ASSUME_SMALL: &str = "numeric small scope: components drawn from {0,1,2,(3)} plus the MAX_SAFE_INTEGER limit family; uniform behaviour in between is assumed";
 
 fn part_c(prop: &str, tier: &str, sink: &Sink, ev: &mut Evidence) {
-    let depth2 = tier == "thorough" || matches!(prop, "C07" | "C08" | "C09" | "C10" | "C15" | "C13" | "C11" | "C03" | "C06");
     let triples = prop == "C15";
-    let (e, out) = engine_c::explore(prop, tier, sink, depth2, triples);
-    let c = &out.counters;
-    ev.evaluations += c.pairs + c.new_states + c.triples;
-    ev.distinct_nontrivial += c.nontrivial_pairs;
-    let states = out.states_d1 as u64 + out.distinct_d2;
-    ev.states = Some(ev.states.unwrap_or(0) + states);
-    ev.transitions = Some(ev.transitions.unwrap_or(0) + c.transitions);
-    ev.traces_validated = Some(ev.traces_validated.unwrap_or(0) + c.transitions);
-    ev.samples.extend(out.samples.clone());
-    ev.extra.insert(
-        "engine_c".into(),
-        json!({
+    // quick: quick leaf set to depth 2.  thorough: thorough leaf set to depth 2, and additionally the
+    // quick leaf set to depth 3 (every new depth-2 state against every leaf, both orders).
+    let runs: Vec<(&str, bool)> = if tier == "thorough" { vec![("thorough", false), ("quick", true)] } else { vec![(tier, false)] };
+    let mut per_run = vec![];
+    for (leafset, depth3) in runs {
+        let (e, out) = engine_c::explore(prop, leafset, sink, true, triples, depth3);
+        let c = &out.counters;
+        ev.evaluations += c.pairs + c.new_states + c.triples;
+        ev.distinct_nontrivial += c.nontrivial_pairs;
+        let states = out.states_d1 as u64 + out.distinct_d2 + out.distinct_d3;
+        ev.states = Some(ev.states.unwrap_or(0) + states);
+        ev.transitions = Some(ev.transitions.unwrap_or(0) + c.transitions);
+        ev.traces_validated = Some(ev.traces_validated.unwrap_or(0) + c.transitions);
+        ev.samples.extend(out.samples.clone());
+        per_run.push(json!({
+            "leaf_set": leafset,
             "leaf_states": out.states_d0,
             "states_after_depth_1": out.states_d1,
             "distinct_new_states_at_depth_2": out.distinct_d2,
+            "distinct_new_states_at_depth_3": out.distinct_d3,
             "depth_completed": out.depth_completed,
             "universe_versions": e.u.len(),
             "counters": c.to_json(),
-            "leaf_texts_not_parsing": engine_c::leaf_texts(tier).len() + 1 - out.states_d0.min(engine_c::leaf_texts(tier).len() + 1),
-        }),
-    );
+            "leaf_texts_not_parsing": (engine_c::leaf_texts(leafset).len() + 1).saturating_sub(out.states_d0),
+        }));
+    }
+    ev.extra.insert("engine_c".into(), json!(per_run));
     if !ev.rule.is_empty() {
         ev.rule.push_str(" || ");
     }
-    ev.rule.push_str("Engine C: breadth-first explicit-state search of the range algebra on the real code; states = Range values keyed by their exact interval list (hook), transitions = intersect/difference for every ordered pair of reached states (depth 1: leaves x leaves, stored; depth 2: all pairs of depth<=1 states, results hashed) plus per-state clauses on every distinct state; every transition is compared with bitset arithmetic over the exact critical-point universe; non-trivial = ordered pairs whose operands overlap without either containing the other");
+    ev.rule.push_str("Engine C: breadth-first explicit-state search of the range algebra on the real code; states = Range values keyed by their exact interval list (hook), transitions = intersect/difference for every ordered pair of reached states (depth 1: leaves x leaves, stored; depth 2: all pairs of depth<=1 states; thorough additionally depth 3 on the quick leaf set: every new depth-2 state x every leaf, both orders) plus per-state clauses on every distinct state; every transition is compared with bitset arithmetic over the exact critical-point universe; non-trivial = ordered pairs whose operands overlap without either containing the other");
     for a in [ASSUME_T1, ASSUME_T2, ASSUME_H, ASSUME_SMALL] {
         if !ev.assumptions.iter().any(|x| x == a) {
             ev.assumptions.push(a.to_string());
